@@ -89,8 +89,16 @@ pub fn payload(t: &mut Tape, sender_minor: u32) -> SerializedValue {
     let mut cfg = GenCfg::canonical(policy);
     cfg.big = false;
     cfg.max_nodes = 12;
-    let dl = t.range(1, 4) as u32;
-    let tree = Gen::new(t, cfg).value(dl);
+    // mostly shallow; sometimes a chain of many nesting steps (conversion between epochs has its
+    // own depth accounting)
+    let tree = if t.chance(20) {
+        let d = t.range(8, 32) as u32;
+        cfg.max_depth = 32;
+        Gen::new(t, cfg).depth_chain(d)
+    } else {
+        let dl = t.range(1, 4) as u32;
+        Gen::new(t, cfg).value(dl)
+    };
     sv_from_bytes(&encode(&tree))
 }
 
